@@ -2,9 +2,11 @@ import RtVerif.Lemmas.C09
 /-
   C09 — property theorems.
 
-  (a) T1: the memo state machine keeps the promises of the Spec, for every configuration `Env`,
-      every shared state and EVERY sequence of accessor calls, threaded or applied to stale request
-      values (`model_meets_spec`), with the readable consequences spelled out.
+  (a) T1: the memo state machine keeps the promises of the Spec AND yields, wherever a stage is
+      evaluated, the result derived from the request alone — for every configuration `Env` and
+      EVERY sequence of accessor calls from the request as received, threaded or applied to stale
+      request values (`model_meets_spec`), with the readable consequences spelled out (reuse:
+      `stage_result_reused` …; history independence: `authorize_result_independent_of_history` …).
   (b) T2: any interleaving of the steps of N requests gives each request the trace it has alone.
   Data-race freedom is NOT a theorem here: see `FullStatement` at the end.
 -/
@@ -69,15 +71,14 @@ example : memoCT [(kFmt, .fmt [97]), (kCT, .ct [116] [])] = some ([116], []) := 
 EVERY program — any sequence of the six accessors, each applied to the newest request value or to
 any older one — the trace of the memo machine satisfies the Spec: whoever holds a request value a
 stage returned (or one derived from it) gets the stage's result again, with none of the stage's
-effects; `ResetAuth` re-arms authentication only; no request value sees the body consumed twice. -/
+effects; `ResetAuth` re-arms authentication only; no request value sees the body consumed twice;
+and every result NOT covered by a promise — route, content type, format, principal or error,
+scopes, binding outcome — is the one the stage yields on the request as received (binding: with
+what is left of its body), whatever was called before, on this or on any other request value. -/
 theorem model_meets_spec (env : Env) (bodyLen : Nat) (prog : List Instr) :
-    specOk prog (runProg env prog ⟨[], bodyLen⟩ [[]]) = true := by
+    specOk env bodyLen prog (runProg env prog ⟨[], bodyLen⟩ [[]]) = true := by
   unfold specOk
-  apply specGo_runProg env prog _ [[]] [{}] rfl
-  intro k
-  cases k with
-  | zero => exact agree_init
-  | succ k => simpa [List.getD] using agree_init
+  exact specGo_runProg env prog _ _ [[]] [{}] (inv_init env bodyLen)
 
 /-! ### consequences for a caller threading the returned request (declarative form) -/
 
@@ -276,6 +277,165 @@ theorem witness_stale_value_recomputes :
       [(.bound [] [98], [.lookup, .consume [106] 3]), (.bound [601] [], [.lookup, .consume [106] 0]),
        (.bound [] [98], [])] := by decide
 
+/-! ## T1b — "… are those derived from that request alone": history independence
+
+`endProg env prog ⟨[], b⟩ [[]]` is the shared state and the list of ALL request values after an
+arbitrary program on the request as received (body of `b` bytes); `k` picks any of the values, the
+newest or a stale one. The pristine request is the state `⟨[], _⟩` with the empty context `[]`. -/
+
+/-- Authentication proper never looks at `route.Authenticator`: whatever it shows (`cur`, left
+behind by an earlier — possibly failed — authentication, aliased to the loop variable or not), the
+outcome of `RouteAuthenticators.Authenticate` as `Authorize` reads it is the reference's: first
+credentialed alternative yielding a principal, else anonymous if allowed and nobody reported an
+error, else the last error; with the scopes of the alternative that let the request in. -/
+theorem authentication_ignores_current_authenticator (env : Env) (alts : List AuthAlt) (cur : Option AuthAlt)
+    (aliased : Bool) (effs : List Eff) :
+    rasOutcome (rasAuth env alts none none cur aliased effs) = refAlts env alts none none :=
+  (rasAuth_ref env alts none none cur aliased effs).1
+
+/-- **`Authorize` is independent of history.** After ANY program, on ANY request value that shows
+no principal (never authenticated, authenticated anonymously, failed, or `ResetAuth`), `Authorize`
+returns exactly what it returns on the pristine request — same principal or same error code — and,
+when it lets the request in, shows the same scopes. Failed authentications, `ResetAuth`, calls on
+other request values and the `route.Authenticator` they left behind have no influence. -/
+theorem authorize_result_independent_of_history (env : Env) (b : Nat) (prog : List Instr) (k : Nat)
+    (hnil : value ((endProg env prog ⟨[], b⟩ [[]]).2.getD k []) kPrinc = .nil) :
+    (stepCore env (endProg env prog ⟨[], b⟩ [[]]).1 ((endProg env prog ⟨[], b⟩ [[]]).2.getD k []) .authorize).res2 =
+      (stepCore env ⟨[], b⟩ [] .authorize).res2 ∧
+    (authenticated (stepCore env ⟨[], b⟩ [] .authorize).res2 = true →
+      (stepCore env (endProg env prog ⟨[], b⟩ [[]]).1 ((endProg env prog ⟨[], b⟩ [[]]).2.getD k []) .authorize).obs.view.scopes =
+        (stepCore env ⟨[], b⟩ [] .authorize).obs.view.scopes) := by
+  obtain ⟨p, hst, hag, hs⟩ := reach env b prog k
+  obtain ⟨p0, hst0, hag0, hs0⟩ := reach env b [] 0
+  obtain ⟨r, hr⟩ : ∃ r, ∀ q l, fresh env q l .authorize = some r := by
+    simp only [fresh]
+    cases env.lookup with
+    | none => exact ⟨_, fun _ _ => rfl⟩
+    | some rc => simp only; split <;> exact ⟨_, fun _ _ => rfl⟩
+  have e1 := evaluated_eq_fresh env _ _ .authorize p hst hag hs hnil r (hr _ _)
+  have e0 := evaluated_eq_fresh env _ _ .authorize p0 hst0 hag0 hs0 rfl r (hr _ _)
+  simp only [endProg, List.getD_cons_zero] at e0 hst0 hag0 hs0
+  refine ⟨e1.trans e0.symm, fun ha => ?_⟩
+  cases hl : env.lookup with
+  | none =>
+    have : r = .unsecured := by have := hr {} 0; simp [fresh, hl] at this; exact this.symm
+    rw [e0, this] at ha; cases ha
+  | some rc =>
+    rw [evaluated_scopes env _ _ p rc hst hag hs hnil hl (by rw [e1, ← e0]; exact ha),
+      evaluated_scopes env _ _ p0 rc hst0 hag0 hs0 rfl hl ha]
+
+/-- **The matched route and the path parameters** any operation reports — looked up now or taken
+from the request value — are those the router finds for this request. -/
+theorem route_independent_of_history (env : Env) (b : Nat) (prog : List Instr) (k : Nat) :
+    routeAlone env (res1Of (routeInfo env (endProg env prog ⟨[], b⟩ [[]]).1
+      ((endProg env prog ⟨[], b⟩ [[]]).2.getD k [])).route) = true := by
+  obtain ⟨p, _, _, hs⟩ := reach env b prog k
+  exact routeAlone_model env _ _ p hs
+
+/-- **`ContentType` is independent of history** — memoised or evaluated: it is the parse of the
+request's header (a parse error is not memoised and is reported again, the same). -/
+theorem contentType_result_independent_of_history (env : Env) (b : Nat) (prog : List Instr) (k : Nat) :
+    (stepCore env (endProg env prog ⟨[], b⟩ [[]]).1 ((endProg env prog ⟨[], b⟩ [[]]).2.getD k []) .contentType).res2 =
+      (stepCore env ⟨[], b⟩ [] .contentType).res2 := by
+  obtain ⟨p, _, _, hs⟩ := reach env b prog k
+  simp only [stepCore]
+  rw [(contentType_ref env _ hs.ct).1, (contentType_ref env [] (by intro x h; simp [memoCT, value] at h)).1]
+
+/-- **`ResponseFormat` is independent of history** on a value that shows no format: a failed
+negotiation (over whatever offers) leaves no trace; the result is the negotiation over THESE offers. -/
+theorem responseFormat_result_independent_of_history (env : Env) (b : Nat) (prog : List Instr) (k : Nat)
+    (offers : List Bytes) (hm : memoFmt ((endProg env prog ⟨[], b⟩ [[]]).2.getD k []) = none) :
+    (stepCore env (endProg env prog ⟨[], b⟩ [[]]).1 ((endProg env prog ⟨[], b⟩ [[]]).2.getD k [])
+        (.responseFormat offers)).res2 = .fmt (env.neg offers) := by
+  obtain ⟨p, hst, hag, hs⟩ := reach env b prog k
+  exact evaluated_eq_fresh env _ _ (.responseFormat offers) p hst hag hs hm _ rfl
+
+/-- **`BindAndValidate` is independent of history, up to the body.** On a value that shows neither
+a binding outcome nor a format, binding yields what it yields on the pristine request whose body
+holds what is still unread — all of it, or nothing ("the body is consumed at most once": a consumed
+body stays consumed, `reachable_body_full_or_consumed`). A `route.Consumer` set earlier, content
+types parsed and formats negotiated on other values, authentications: no influence. -/
+theorem bindAndValidate_result_independent_of_history (env : Env) (b : Nat) (prog : List Instr) (k : Nat)
+    (hb : memoBound ((endProg env prog ⟨[], b⟩ [[]]).2.getD k []) = none)
+    (hf : memoFmt ((endProg env prog ⟨[], b⟩ [[]]).2.getD k []) = none) :
+    (stepCore env (endProg env prog ⟨[], b⟩ [[]]).1 ((endProg env prog ⟨[], b⟩ [[]]).2.getD k []) .bindAndValidate).res2 =
+      (stepCore env ⟨[], (endProg env prog ⟨[], b⟩ [[]]).1.bodyLeft⟩ [] .bindAndValidate).res2 := by
+  obtain ⟨p, hst, hag, hs⟩ := reach env b prog k
+  obtain ⟨p0, hst0, hag0, hs0⟩ := reach env (endProg env prog ⟨[], b⟩ [[]]).1.bodyLeft [] 0
+  simp only [endProg, List.getD_cons_zero] at hst0 hag0 hs0
+  rw [bind_model env _ _ p hst hag hs hb, bind_model env _ _ p0 hst0 hag0 hs0 (by simp [memoBound, value])]
+  cases env.lookup with
+  | none => rfl
+  | some rc =>
+    simp only
+    rw [refBind_congr env p p0 _ rc]
+    rw [fmt_promise_eq hag hs, fmt_promise_eq hag0 hs0, hf]
+    simp [memoFmt, value]
+
+/-- …and with a format the value holds (negotiated by whoever asked first, from their offers),
+binding is the reference's binding with THAT format: the one exception the property names. -/
+theorem bindAndValidate_uses_promised_format_only (env : Env) (b : Nat) (prog : List Instr) (k : Nat) (r : Res2)
+    (hb : memoBound ((endProg env prog ⟨[], b⟩ [[]]).2.getD k []) = none)
+    (hf : fresh env { fmt := (memoFmt ((endProg env prog ⟨[], b⟩ [[]]).2.getD k [])).map Res2.fmt }
+      (endProg env prog ⟨[], b⟩ [[]]).1.bodyLeft .bindAndValidate = some r) :
+    (stepCore env (endProg env prog ⟨[], b⟩ [[]]).1 ((endProg env prog ⟨[], b⟩ [[]]).2.getD k []) .bindAndValidate).res2 = r := by
+  obtain ⟨p, hst, hag, hs⟩ := reach env b prog k
+  exact evaluated_eq_fresh env _ _ .bindAndValidate p hst hag hs hb r hf
+
+/-- the body of a reachable state is untouched or consumed — never partly read, never replayed -/
+theorem reachable_body_full_or_consumed (env : Env) (b : Nat) (prog : List Instr) :
+    (endProg env prog ⟨[], b⟩ [[]]).1.bodyLeft = b ∨ (endProg env prog ⟨[], b⟩ [[]]).1.bodyLeft = 0 :=
+  reach_body env b prog
+
+/-! ### witnesses for T1b -/
+
+/-- authentication optional: scheme `k` (scope `r`) first, anonymous access second -/
+def exOptRoute : RouteCfg := ⟨[100], [], [[106]], [⟨false, [[107]], [[114]]⟩, ⟨true, [], []⟩], false⟩
+
+/-- `k` reports 401 (`wrong`), or accepts `u` -/
+def exOptEnv (wrong : Bool) : Env :=
+  { lookup := some exOptRoute, parseCT := .ok ([106], []), neg := fun o => o.headD [],
+    authn := fun _ => if wrong then ⟨true, none, some 401⟩ else ⟨true, some [117], none⟩, authz := none,
+    hasBody := false, ctAllowed := fun _ => true, consumerFor := fun _ => some [106], bodyParam := false,
+    bind := fun _ => ⟨[], [98]⟩ }
+
+/-- the hypotheses of `authorize_result_independent_of_history` are met after a failed
+authentication and after `ResetAuth`, by the newest and by stale values -/
+example : value ((endProg (exOptEnv true) [⟨.authorize, 0⟩, ⟨.authorize, 0⟩] ⟨[], 0⟩ [[]]).2.getD 2 []) kPrinc = .nil ∧
+    value ((endProg (exOptEnv false) [⟨.authorize, 0⟩, ⟨.resetAuth, 0⟩] ⟨[], 0⟩ [[]]).2.getD 2 []) kPrinc = .nil ∧
+    value ((endProg (exOptEnv false) [⟨.authorize, 0⟩, ⟨.resetAuth, 0⟩] ⟨[], 0⟩ [[]]).2.getD 0 []) kPrinc = .nil ∧
+    authenticated (stepCore (exOptEnv false) ⟨[], 0⟩ [] .authorize).res2 = true := by decide
+
+/-- **A failed authentication leaves no trace**: wrong credentials on a route where authentication
+is optional fail — and fail again, although `route.Authenticator` is no longer nil (last column;
+`NeedsAuth()` has become false: with the loop variable shared it shows the alternative looked at
+last, the anonymous one); with the right credentials, `Authorize`–`ResetAuth`–`Authorize` yields
+the principal both times, with its scopes. -/
+theorem witness_failed_authentication_leaves_no_trace :
+    (runThread (exOptEnv true) [.authorize, .authorize] ⟨[], 0⟩ []).map (fun o => (o.res2, o.view.authn)) =
+      [(.authErr 401, some []), (.authErr 401, some [])] ∧
+    (runThread (exOptEnv false) [.authorize, .resetAuth, .authorize] ⟨[], 0⟩ []).map (fun o => (o.res2, o.view.scopes)) =
+      [(.princ [117], [[114]]), (.na, []), (.princ [117], [[114]])] := by decide
+
+/-- **The strengthened Spec is not vacuous**: a trace that differs from the model's only in the
+second `Authorize` succeeding anonymously after the failed one (no promise is broken: a failure
+promises nothing), and one in which `Authorize` after `ResetAuth` comes back anonymous instead of
+with the principal, are both rejected; so is a second binding on a stale value that replays the
+first outcome after the body was consumed. -/
+theorem witness_spec_rejects_history_dependence :
+    (let t := runProg (exOptEnv true) [⟨.authorize, 0⟩, ⟨.authorize, 0⟩] ⟨[], 0⟩ [[]]
+     specOk (exOptEnv true) 0 [⟨.authorize, 0⟩, ⟨.authorize, 0⟩] t = true ∧
+     specOk (exOptEnv true) 0 [⟨.authorize, 0⟩, ⟨.authorize, 0⟩]
+       (t.take 1 ++ (t.drop 1).map fun o => { o with res2 := .anon, ret2 := .same }) = false) ∧
+    (let t := runProg (exOptEnv false) [⟨.authorize, 0⟩, ⟨.resetAuth, 0⟩, ⟨.authorize, 0⟩] ⟨[], 0⟩ [[]]
+     specOk (exOptEnv false) 0 [⟨.authorize, 0⟩, ⟨.resetAuth, 0⟩, ⟨.authorize, 0⟩] t = true ∧
+     specOk (exOptEnv false) 0 [⟨.authorize, 0⟩, ⟨.resetAuth, 0⟩, ⟨.authorize, 0⟩]
+       (t.take 2 ++ (t.drop 2).map fun o => { o with res2 := .anon, ret2 := .same }) = false) ∧
+    (let t := runProg (exEnv true) [⟨.bindAndValidate, 0⟩, ⟨.bindAndValidate, 1⟩] ⟨[], 3⟩ [[]]
+     specOk (exEnv true) 3 [⟨.bindAndValidate, 0⟩, ⟨.bindAndValidate, 1⟩] t = true ∧
+     specOk (exEnv true) 3 [⟨.bindAndValidate, 0⟩, ⟨.bindAndValidate, 1⟩]
+       (t.take 1 ++ (t.drop 1).map fun o => { o with res2 := .bound [] [98] }) = false) := by decide
+
 /-! ## T2 — non-interference of concurrent requests (on the model) -/
 
 /-- steps of different requests commute: they touch disjoint state -/
@@ -319,10 +479,11 @@ theorem concurrent_trace_eq_sequential {ρ : Type} (envOf : ρ → Env) (reqs : 
 
 example : ((fun _ => serveProg [[106]]) 1).length ≤ ([0, 1, 1, 0, 1, 0, 1, 1, 0, 0] : List Nat).count 1 := by decide
 
-/-- …hence under any interleaving every request's trace satisfies the Spec of ITS OWN program. -/
+/-- …hence under any interleaving every request's trace satisfies the Spec of ITS OWN program, judged
+against ITS OWN stage functions: no other request's data enters into any result. -/
 theorem concurrent_requests_meet_spec {ρ : Type} (envOf : ρ → Env) (reqs : Nat → ρ) (bodyLen : Nat → Nat)
     (progs : Nat → List Op) (sched : List Nat) (i : Nat) (hdone : (progs i).length ≤ sched.count i) :
-    specOk ((progs i).map (⟨·, 0⟩))
+    specOk (envOf (reqs i)) (bodyLen i) ((progs i).map (⟨·, 0⟩))
       (runSched envOf reqs sched (fun j => Local.fresh (bodyLen j) (progs j)) i).trace = true := by
   rw [concurrent_trace_eq_sequential envOf reqs bodyLen progs sched i hdone]
   have := model_meets_spec (envOf (reqs i)) (bodyLen i) ((progs i).map (⟨·, 0⟩))
@@ -330,9 +491,10 @@ theorem concurrent_requests_meet_spec {ρ : Type} (envOf : ρ → Env) (reqs : N
 
 /-! ## the full statement, and the part of it that is proved -/
 
-/-- "Within one request, once a stage has produced a result it is reused …" — every program -/
+/-- "… are those derived from that request alone …" (within one request) and "Within one request,
+once a stage has produced a result it is reused …" — every program -/
 def MemoPart : Prop :=
-  ∀ (env : Env) (bodyLen : Nat) (prog : List Instr), specOk prog (runProg env prog ⟨[], bodyLen⟩ [[]]) = true
+  ∀ (env : Env) (bodyLen : Nat) (prog : List Instr), specOk env bodyLen prog (runProg env prog ⟨[], bodyLen⟩ [[]]) = true
 
 /-- "Under any interleaving … each request's [results] are those derived from that request alone"
 — on the step model in which a step of request `i` reads the immutable configuration and the
